@@ -20,9 +20,9 @@ CHECKS = {
    note="Unbounded liveness restated as bounded progress on the store clock. One known finding (KF2: max_batch > 100). Postgres not covered.",
    technique="runtime monitoring: reference-model monitor (ready set) over generated single-client histories under a virtual clock; abandon-and-reopen crash simulation"),
  "C06": dict(level="exploration", ref="DESIGN.md §3 C06",
-   text="Held on every scripted scenario: the real PushDispatcher runs against a recording store wrapper and a scripted deliverer under a harness-driven virtual clock; the finite classification table (status 100-599 x error kinds x attempts 1..max+1 for retry.max 1 and 3) is enumerated completely, plus generated per-target behaviour sequences, retry configs, DLQ requeue cycles, injected store failures and a real-HTTP sample; every settlement, nack delay, next offer time and attempt record is compared with an independent table.",
+   text="Held on every scripted scenario: the real PushDispatcher runs against a recording store wrapper and a scripted deliverer under a harness-driven virtual clock; the finite classification table (status 100-599 x error kinds x attempts 1..max+1 for retry.max 1 and 3) is enumerated completely, plus generated per-target behaviour sequences, retry configs, DLQ requeue cycles, injected store failures and a real-HTTP sample; every settlement, nack delay, next offer time and attempt record is compared with an independent table. A wire-level part through the real `hookaido run` process (tracing on/off, SQLite/memory) compares the requests raw TCP targets received with the recorded attempts.",
    note="Attempt bound and terminal-state clauses only asserted without injected store failures (as the quantifier says). Real time is only a watchdog.",
-   technique="runtime monitoring: event-log checker over a recording store wrapper + scripted deliverer against an independent classification table (virtual clock)"),
+   technique="runtime monitoring: event-log checker over a recording store wrapper + scripted deliverer against an independent classification table (virtual clock); wire-level request log of raw TCP targets vs. attempt records of the real process"),
  "C07": dict(level="exploration", ref="DESIGN.md §3 C07",
    text="Held on every message explored: bodies and header sets written byte by byte over TCP to the production ingress handler (and items published through the Admin API) are consumed through Pull HTTP, Worker gRPC, the Admin listing and push delivery to a local sink, after 1-3 redeliveries and (SQLite) after a restart on the same file; payload compared by bytes/sha256, headers against a re-implemented storage rule.",
    note="Hop-by-hop / stack-managed headers excluded from the comparison; ~450 messages x 4 consumers per quick run.",
@@ -32,7 +32,7 @@ CHECKS = {
    note="Soundness is the claim; completeness is a vacuity guard only. At exactly |now-ts| = tolerance either answer is accepted.",
    technique="runtime monitoring: reference-model monitor (independent authenticator) + snapshot-unchanged-on-rejection over generated and mutated requests"),
  "C09": dict(level="exploration", ref="DESIGN.md §3 C09",
-   text="Held on every history explored: per-nonce acceptance ledger over ingress.HMACAuth histories under a virtual clock (replays at every instant class incl. exactly ts+tolerance, up to 5000 interleaved nonces), 16-goroutine identical requests under the race detector, and original/reload/replay histories through the production reload path (unchanged file, changed file, two reloads, Admin management mutation).",
+   text="Held on every history explored: per-nonce acceptance ledger over ingress.HMACAuth histories under a virtual clock (replays at every instant class incl. exactly ts+tolerance, up to 5000 interleaved nonces), 16-goroutine identical requests under the race detector, and original/reload/replay histories through the production reload path (unchanged file, changed file, two reloads, Admin management mutation). Further: a running clock (every read advances it) around ts+tolerance, tolerance-changing reloads, and a fan-out route on a store that refuses one per-target enqueue (no request/target pair may be stored twice).",
    note="The ledger is the consequence shared by every reading of the statement (later arrival must be > ts_first + tolerance).",
    technique="runtime monitoring: offline checker (at-most-once ledger) over recorded acceptance histories; Go race detector"),
  "C10": dict(level="exploration", ref="DESIGN.md §3 C10",
